@@ -23,7 +23,7 @@
    ? or + may come first (the previous element was not special). *)
 From Coq Require Import List NArith Bool.
 Import ListNotations.
-Open Scope N_scope.
+Local Open Scope N_scope.
 
 (* a character: a code point other than NUL *)
 Definition is_char (x : N) : Prop := x <> 0 /\ x < 1114112.
